@@ -903,6 +903,33 @@ func (c *FuncCtx) evalBuiltin(st *State, n *ast.CallExpr, name string) []Value {
 			Eq(Select(nh, p), Ite(in, Select(h, Add(Sub(p, dst.Addr), src.Addr)), Select(h, p)))))
 		st.heaps[hn] = nh
 		return []Value{IntV{cnt}}
+	case "append":
+		// x = append(x, v) on a slice of integers that this call allocated itself (literal, make or an
+		// earlier append): modelled as a reallocation, the old elements followed by the new one.  The
+		// in-place case of Go differs only for other slices sharing the backing array, which do not
+		// exist for storage that never left the function (checked: the operand's storage is fresh).
+		if len(n.Args) != 2 || n.Ellipsis.IsValid() {
+			panic(verr("unsupported append form at %s", c.prog.pos(n)))
+		}
+		base, ok := c.eval(st, n.Args[0]).(SliceV)
+		if !ok || entryDerived(base.Addr) {
+			panic(verr("append to a slice that was not allocated by this call, at %s", c.prog.pos(n)))
+		}
+		if _, isInt := intKindOf(base.Elem); !isInt {
+			panic(verr("append to a slice of %s at %s", base.Elem, c.prog.pos(n)))
+		}
+		c.oblige(st, "append", "fresh", Or(Le(brk0, base.Addr), Eq(base.Cap, ConstI(0))), n)
+		v := c.evalInt(st, n.Args[1])
+		ns := c.freshSlice(st, base.Elem, Add(base.Len, ConstI(1)), Add(base.Len, ConstI(1)))
+		hn := heapName(base.Elem)
+		h := c.heap(st, hn)
+		nh := Var(c.freshName(hn), SArr)
+		p := Var(c.freshName("p"), SInt)
+		in := And(Le(ns.Addr, p), Lt(p, Add(ns.Addr, base.Len)))
+		st.assume(Forall([]*Term{p}, []*Term{Select(nh, p)},
+			Eq(Select(nh, p), Ite(in, Select(h, Add(Sub(p, ns.Addr), base.Addr)), Select(h, p)))))
+		st.heaps[hn] = Store(nh, Add(ns.Addr, base.Len), v)
+		return []Value{ns}
 	case "new":
 		if et, ok := extRefType(c.typeOf(n)); ok {
 			r := c.allocRef(st, et, "new")
@@ -922,16 +949,7 @@ func (c *FuncCtx) evalBuiltin(st *State, n *ast.CallExpr, name string) []Value {
 			cp = c.evalInt(st, n.Args[2])
 		}
 		c.oblige(st, "make", "", And(Le(ConstI(0), ln), Le(ln, cp)), n)
-		s := SliceV{Addr: Var(c.freshName("make.addr"), SInt), Len: ln, Cap: cp, Elem: sl.Elem()}
-		st.assume(And(Le(ConstI(1), s.Addr), Le(s.Addr, Const(maxAddr)), Le(brk0, s.Addr)))
-		c.setRange(s.Addr, bigOne, maxAddr)
-		// allocation model: a new slice lies above everything that existed at entry and apart from
-		// the slices this call has made before on the same path
-		for _, a := range st.allocs {
-			st.assume(Or(Le(Add(a.Addr, a.Cap), s.Addr), Le(Add(s.Addr, cp), a.Addr)))
-		}
-		st.allocs = append(st.allocs, s)
-		c.assumed = append(c.assumed, "allocation model: slices reachable from the inputs lie below a watermark brk0, make returns storage at or above it, disjoint from earlier makes of the same path")
+		s := c.freshSlice(st, sl.Elem(), ln, cp)
 		if _, isInt := intKindOf(sl.Elem()); isInt {
 			h := c.heap(st, heapName(sl.Elem()))
 			p := Var(c.freshName("p"), SInt)
@@ -2010,4 +2028,19 @@ func (c *FuncCtx) fnCallSite(o types.Object, at *ast.CallExpr) int {
 		return true
 	})
 	return res
+}
+
+// freshSlice: newly allocated storage (make, an empty literal, the reallocation model of append).
+func (c *FuncCtx) freshSlice(st *State, elem types.Type, ln, cp *Term) SliceV {
+	s := SliceV{Addr: Var(c.freshName("make.addr"), SInt), Len: ln, Cap: cp, Elem: elem}
+	st.assume(And(Le(ConstI(1), s.Addr), Le(s.Addr, Const(maxAddr)), Le(brk0, s.Addr)))
+	c.setRange(s.Addr, bigOne, maxAddr)
+	// allocation model: a new slice lies above everything that existed at entry and apart from
+	// the slices this call has made before on the same path
+	for _, a := range st.allocs {
+		st.assume(Or(Le(Add(a.Addr, a.Cap), s.Addr), Le(Add(s.Addr, cp), a.Addr)))
+	}
+	st.allocs = append(st.allocs, s)
+	c.assumed = append(c.assumed, "allocation model: slices reachable from the inputs lie below a watermark brk0, make returns storage at or above it, disjoint from earlier makes of the same path")
+	return s
 }
